@@ -9,11 +9,13 @@ Scope
   starting density over horizon 6, and sampled walks of 8 steps (20 seeds; quick: start = seed mod N, thorough: every
   start x 20 seeds).
 * simplicial_contagion.  Exhaustive: every hypergraph on the nodes 0..N-1 (all nodes present, isolated ones included)
-  with hyperedges of sizes 2..5: N <= 3 all of them with every horizon T = 1..6; N = 4 with <= 3 hyperedges (thorough:
-  all 2048); N = 5 with <= 2 hyperedges (thorough: <= 3, and all with 4 hyperedges of sizes 2..3 for 8 of the 32 initial
-  conditions); every initial condition; every rate triple in {0, .3, 1}^3 (thorough N = 5: the 19 stochastic triples
-  only for sizes 2..3) with T = 6 for the deterministic triples and T cycling 2..6 for the stochastic ones.  Sampled
-  beyond: random hypergraphs on 6..9 nodes with string / offset labels, random initial conditions.
+  with hyperedges of sizes 2..5 and every initial condition: N <= 3 all hypergraphs, every horizon T = 1..6 and every
+  rate triple in {0, .3, 1}^3; N = 4 with <= 3 hyperedges (thorough: all 2048), every rate triple; N = 5 with <= 2
+  hyperedges (thorough: <= 3), the 8 deterministic triples for all of them and the 19 stochastic triples only when all
+  hyperedges have size <= 3 (quick: 6 of the 19, sampled per input); thorough additionally N = 5 with 4 hyperedges of
+  sizes 2..3, 8 sampled initial conditions each, deterministic triples.  For N >= 4: T = 6 for the deterministic
+  triples, T cycling through 2..6 for the stochastic ones.  Sampled beyond: random hypergraphs on 6..9 nodes with
+  string / offset / plain labels, sizes 2..5, random initial conditions, all deterministic and 6 stochastic triples.
 
 Oracle: written from the statement with exact rationals (fractions) and plain sets: W[i][j] = sum over hyperedges
 containing i and j (i != j) of (size-1); the matrix clause is diagonal-agnostic (off-diagonal entries of row i equal
@@ -363,19 +365,17 @@ def _gen_cases(ctx):
     triples = list(itertools.product(RATES, repeat=3))
     det = [t for t in triples if all(r in (0, 1) for r in t)]
     sto = [t for t in triples if t not in det]
-    draws = (0,) if quick else (0, 1)
     cyc = itertools.cycle(range(2, 7))
 
-    def runs_for(N, with_sto=True):
+    def runs_for(N, sto_triples):
         rs = []
         for b, bD, mu in det:
             for T in (range(1, 7) if N <= 3 else (6,)):
                 rs.append([T, b, bD, mu, 0])
-        if with_sto:
-            for b, bD, mu in sto:
-                for T in (range(1, 7) if N <= 3 else (next(cyc),)):
-                    for d in (draws if N <= 4 else (0,)):
-                        rs.append([T, b, bD, mu, d])
+        for b, bD, mu in sto_triples:
+            for T in (range(1, 7) if N <= 3 else (next(cyc),)):
+                for d in ((0, 1) if (N <= 3 and not quick) else (0,)):
+                    rs.append([T, b, bD, mu, d])
         return rs
 
     for N in range(1, 6):
@@ -391,15 +391,20 @@ def _gen_cases(ctx):
             for es in itertools.combinations(pool, k):
                 small_sizes = all(len(e) <= 3 for e in es)
                 for I0 in itertools.product((0, 1), repeat=N):
-                    add(dict(kind="sc", nodes=nodes, edges=[list(e) for e in es], I0=list(I0),
-                             runs=runs_for(N, with_sto=(quick or N <= 4 or small_sizes))))
+                    if N <= 4:
+                        st = sto
+                    elif not small_sizes:
+                        st = []
+                    else:
+                        st = rng.sample(sto, 6) if quick else sto
+                    add(dict(kind="sc", nodes=nodes, edges=[list(e) for e in es], I0=list(I0), runs=runs_for(N, st)))
         if N == 5 and not quick:
             pool23 = _all_edges(N, 2, 3)
             ics = list(itertools.product((0, 1), repeat=N))
             for es in itertools.combinations(pool23, 4):
                 for I0 in rng.sample(ics, 8):
                     add(dict(kind="sc", nodes=nodes, edges=[list(e) for e in es], I0=list(I0),
-                             runs=runs_for(N, with_sto=False)))
+                             runs=runs_for(N, [])))
     # ---- contagion: sampled larger, other label kinds
     for i in range(40 if quick else 400):
         N = rng.randint(6, 9)
@@ -483,12 +488,11 @@ def run(ctx):
                 ctx.fail(f["function"], f["clause"], f["input"], f["expected"], f["observed"], f["key"], f["replay"])
     ctx.exhaustive_parts.append("random walk: every connected hypergraph with node set exactly 0..N-1, N <= 5, sizes 2..5, "
                                 "<= %s hyperedges" % ("4 (N <= 4) / 3 (N = 5)" if ctx.quick else "4"))
-    ctx.exhaustive_parts.append("contagion: every hypergraph on nodes 0..N-1 with hyperedges of sizes 2..5 for N <= 3 "
-                                "(every T = 1..6), N = 4 with %s, N = 5 with <= %d hyperedges; every initial condition; "
-                                "every rate triple in {0,.3,1}^3%s"
+    ctx.exhaustive_parts.append("contagion, deterministic rate triples {0,1}^3, every initial condition: every hypergraph "
+                                "on nodes 0..N-1 with hyperedges of sizes 2..5 for N <= 3 (every T = 1..6), N = 4 with %s, "
+                                "N = 5 with <= %d hyperedges (T = 6); all 27 triples of {0,.3,1}^3 for N <= 4%s"
                                 % ("<= 3 hyperedges" if ctx.quick else "any number of hyperedges", 2 if ctx.quick else 3,
-                                   "" if ctx.quick else " (N = 5 with a hyperedge of size >= 4: the 8 deterministic "
-                                                        "triples only)"))
+                                   "" if ctx.quick else " and for N = 5 when all hyperedges have size <= 3"))
     _CASES = []
 
 
